@@ -35,13 +35,11 @@ of the pruning pass holds exactly the historical keys of ITS (pool, denom0, deno
 cutoff's — for all pool ids and denoms whose bytes stay below the separator, prefixes of each other included),
 lookup_range_selects_own_pair_up_to_time (getRecordAtOrBeforeTime), historical_key_injective, most_recent_key_injective.
 Assumed, not modelled: FormatTimeString is fixed-width and order preserving; the iterator order is bytes.Compare.
-PARTIAL (NOT theorems; decided by the engine's oracle against 700-bit references on the explored cases):
-  * geom_vs_true_mean: |geometric TWAP − 2^(Σ wᵢ·log₂ pᵢ / Σ wᵢ)| within the stated precision — needs the
-    analytic error bounds of Exp2 (rel 1e-18) and LogBase2 (abs 1e-32), which C13 does not prove either;
-  * geom_between_min_max and geom_reciprocal (the two quote directions multiply to 1 within the 8 figure
-    rounding): same gap.
-  The code (and so the model) VIOLATES both for a zero accumulator difference: see the `_witness` theorems
-  (recorded findings F-C10a / F-C10b).
+GEOMETRIC ACCURACY (formerly PARTIAL, now theorems over Mathlib reals in Props/C10Geom.lean, composed from the C13 bounds of
+LogBase2 / Exp2 / SigFigRound through this model): geom_twap_accuracy (|TWAP − 2^(Σ wᵢ·log₂ pᵢ / Σ wᵢ)| ≤ (5·10^-8 + 10^-17)·T + 2·10^-18),
+geom_twap_between_min_max, geom_twap_reciprocal — each for every answered query with a NON-ZERO accumulator difference.
+  The code (and so the model) VIOLATES all three for a zero accumulator difference: see the `_witness` theorems below and in
+  C10Geom (recorded finding F14 = F-C10a / F-C10b).
 -/
 import OsmoVerif.Proofs.TwapQuery
 import OsmoVerif.Proofs.TwapWorld
